@@ -87,6 +87,22 @@ func cmdVerify(repo, verif string, pats []string) int {
 		}
 		all = append(all, r.Obligs...)
 	}
+	for _, l := range p.contracts.Lemmas {
+		match := len(pats) == 0
+		for _, w := range pats {
+			if strings.Contains("lemma "+l.Name, w) {
+				match = true
+			}
+		}
+		if match {
+			r := p.verifyLemma(l)
+			results = append(results, r)
+			if r.Err != "" {
+				fmt.Printf("TRANSLATION-FAILED %s: %s\n", r.Key, r.Err)
+			}
+			all = append(all, r.Obligs...)
+		}
+	}
 	out := filepath.Join(verif, "out", "dev")
 	os.RemoveAll(out)
 	tmo := 10
@@ -126,4 +142,3 @@ func cmdVerify(repo, verif string, pats []string) int {
 	}
 	return 0
 }
-
